@@ -2,6 +2,10 @@ NOTE_COMMON = ("trusts gqlparser v2.5.1 (also used by pebbles), the harness's se
                "the Go runtime and race detector; absence of violations is a statement about the explored cases only")
 
 CHECKS = [
+    {"property_id": "C01", "category": "exploration", "design_ref": "DESIGN.md §5 C01",
+     "technique": "property-based differential testing (rapid): generated worlds x data x operations through the real gateway vs a reference GraphQL executor on the union schema",
+     "text": "rapid generates federated worlds (service SDLs + one shared entity store), client operations from a grammar (aliases, arguments, variables, fragments, directives, abstract types, lists, nulls) and gateway configurations (merger, id hint, plain/cached planner, service order); the real gateway is driven through its HTTP handler with fake services behind the real MultiOpQueryer, and its data (modulo pruning of empty objects) must equal what a reference executor computes on the union schema over the same store, with errors empty. Open known findings are replayed and reported as KNOWN-FINDING; their syntactic feature classes are excluded from the search and counted",
+     "level_note": NOTE_COMMON + "; data always conforms to the schemas; 18 feature classes are gated by open findings (see known_findings.json and coverage.excluded_by_gate)"},
     {"property_id": "C03", "category": "exploration", "design_ref": "DESIGN.md §5 C03",
      "technique": "property-based testing (rapid): generated mergeable service-schema sets, bidirectional inclusion oracle on schema facts",
      "text": "rapid-generated federated worlds (mergeable by construction) are merged by the real ExtendMergerFunc / SanitizeNodeMergerFunc in a drawn service order; the oracle flattens every service schema and the merged schema into facts (types, kinds, fields, argument name/type/default, enum values, union members, implements, input fields, directives) and demands inclusion in both directions, a print/load round trip of the merged schema, and that operations generated valid against one service validate against the merged schema",
@@ -16,7 +20,7 @@ CHECKS = [
      "level_note": NOTE_COMMON + "; schedule control limited to callbacks and the 9 verif hook points"},
 ]
 
-_PENDING = ["C01","C02","C05","C06","C07","C08","C09","C10","C11","C12","C13","C14","C15","C16","C17","C18","C19"]
+_PENDING = ["C02","C05","C06","C07","C08","C09","C10","C11","C12","C13","C14","C15","C16","C17","C18","C19"]
 NOT_APPLICABLE = [{"property_id": p, "reason": "check not built yet (work in progress; the technique applies, see DESIGN.md §5)"} for p in _PENDING]
 
 NOTES = "All checks are property-based tests / fuzz targets in /verif/harness (Go, rapid v1.3.0) run by /verif/check; see DESIGN.md."
